@@ -19,6 +19,7 @@ struct Entry {
     code: u16,
     location: Option<Vec<u8>>,
     body: Vec<u8>,
+    chunked: bool,
 }
 
 #[derive(Default)]
@@ -130,20 +131,37 @@ fn serve_one(mut s: TcpStream, host: usize, prefix: &str, world: &Arc<Mutex<Worl
         if w.log.len() > MAX_EXCHANGES {
             // a client that keeps being redirected (a cycle no generated world contains) is cut off here, so that a broken
             // resolution shows up as a wrong answer instead of a hang
-            Some(Entry { host, target: Vec::new(), code: 500, location: None, body: b"cut: too many exchanges".to_vec() })
+            Some(Entry { host, target: Vec::new(), code: 500, location: None, body: b"cut: too many exchanges".to_vec(), chunked: false })
         } else {
             w.table.iter().find(|e| e.host == host && e.target == target.as_bytes()).cloned()
         }
     };
-    let e = entry.unwrap_or(Entry { host, target: Vec::new(), code: 404, location: None, body: b"nf".to_vec() });
-    let mut out = format!("HTTP/1.1 {} {}\r\nContent-Length: {}\r\n", e.code, phrase(e.code), e.body.len()).into_bytes();
+    let e = entry.unwrap_or(Entry { host, target: Vec::new(), code: 404, location: None, body: b"nf".to_vec(), chunked: false });
+    let mut out = if e.chunked {
+        format!("HTTP/1.1 {} {}\r\nTransfer-Encoding: chunked\r\n", e.code, phrase(e.code)).into_bytes()
+    } else {
+        format!("HTTP/1.1 {} {}\r\nContent-Length: {}\r\n", e.code, phrase(e.code), e.body.len()).into_bytes()
+    };
     if let Some(l) = &e.location {
         out.extend_from_slice(b"Location: ");
         out.extend_from_slice(l);
         out.extend_from_slice(b"\r\n");
     }
     out.extend_from_slice(b"\r\n");
-    out.extend_from_slice(&e.body);
+    if e.chunked {
+        // two chunks (first half, second half), then the last-chunk
+        let cut = e.body.len() / 2;
+        for part in [&e.body[..cut], &e.body[cut..]] {
+            if !part.is_empty() {
+                out.extend_from_slice(format!("{:x}\r\n", part.len()).as_bytes());
+                out.extend_from_slice(part);
+                out.extend_from_slice(b"\r\n");
+            }
+        }
+        out.extend_from_slice(b"0\r\n\r\n");
+    } else {
+        out.extend_from_slice(&e.body);
+    }
     let _ = s.write_all(&out);
     let _ = s.shutdown(Shutdown::Write);
     let _ = s.set_read_timeout(Some(Duration::from_millis(500)));
@@ -227,6 +245,7 @@ pub fn dispatch(name: &str, args: &[&str]) -> Option<String> {
                         code: f[2].parse().unwrap(),
                         location: if f[3] == "-" { None } else { Some(expand(&unhex(f[3]), &net.prefix)) },
                         body: unhex(f[4]),
+                        chunked: f.get(5).map(|x| *x == "c").unwrap_or(false),
                     });
                 }
             }
